@@ -917,7 +917,7 @@ func computeClassFacts(c *Ctx) *classFacts {
 func ruleGuardAssert(c *Ctx, r *R) {
 	cf := computeClassFacts(c)
 	r.note("class_payloads", fmt.Sprint(cf.payloadOfClassVar))
-	for _, fn := range c.AllSrcFuncs("") {
+	for _, fn := range c.AllSrcFuncs("", "parser", "ast", "file", "token") {
 		ord := map[string]int{}
 		for _, b := range fn.Blocks {
 			for _, ins := range b.Instrs {
